@@ -5,6 +5,7 @@
 package main
 
 import (
+	"bytes"
 	"encoding/binary"
 	"encoding/json"
 	"fmt"
@@ -319,6 +320,7 @@ func main() {
 			seed              uint64
 		}
 		byKey := map[string]viol{}
+		cands := map[string][]viol{} // every worker's first plan per class: fall-backs when one does not replay
 		var pruns int64
 		for w := 0; w < tc.Workers; w++ {
 			b, err := os.ReadFile(filepath.Join(pwork, fmt.Sprintf("worker-%d.json", w)))
@@ -359,6 +361,7 @@ func main() {
 				if old, ok := byKey[v.Key]; !ok || v.Seed < old.seed {
 					byKey[v.Key] = viol{v.Key, v.Detail, v.Plan, v.Seed}
 				}
+				cands[v.Key] = append(cands[v.Key], viol{v.Key, v.Detail, v.Plan, v.Seed})
 			}
 		}
 		phaseInfo = append(phaseInfo, map[string]any{"phase": ph.Name, "race_detector": ph.Race, "runs": pruns, "workers": tc.Workers})
@@ -419,44 +422,89 @@ func main() {
 				fmt.Printf("further violation class not minimised: %s (seed %d, plan %s)\n", k, v.seed, v.plan)
 				continue
 			}
-			minPath := filepath.Join(pwork, fmt.Sprintf("min-%d.json", i))
-			e := []string{"VERIF_MODE=shrink", "VERIF_TIER=" + tier, "VERIF_PLAN=" + v.plan, "VERIF_KEY=" + k, "VERIF_RESULT=" + minPath, "VERIF_OUT=" + pwork, "VERIF_SHRINK_MS=90000"}
-			e = append(e, ph.Env...)
-			if ph.Race {
-				e = append(e, "VERIF_SHRINK_RUNS=150", "GORACE=halt_on_error=0 log_path="+filepath.Join(pwork, "race-shrink"))
+			// the plan with the smallest seed first, then other workers' plans of
+			// the same class (a plan found in a worker that had run other plans
+			// before may not violate in a fresh process when a defect leaves state
+			// in process-wide library objects such as pools)
+			list := []viol{v}
+			cs := cands[k]
+			sort.Slice(cs, func(a, b int) bool { return cs[a].seed < cs[b].seed })
+			for _, c := range cs {
+				if c.plan != v.plan && len(list) < 4 {
+					list = append(list, c)
+				}
 			}
-			out, err := runBin(bin, e, 15*time.Minute)
-			if err != nil && !fileExists(minPath) {
-				fmt.Printf("shrink failed (%v); reporting the unminimised plan\n%s\n", err, tail(out, 10))
-				minPath = v.plan
-			} else {
-				fmt.Print(tail(out, 3))
-			}
-			// replay twice in fresh processes: same key, same event-log hash
-			var rk [2]string
-			var rh [2]string
-			for j := 0; j < 2; j++ {
-				rk[j], rh[j], _ = replayWant(bin, ph.Race, minPath, pwork, j, k)
-			}
-			if rk[0] != k || rk[1] != k || rh[0] != rh[1] {
-				// fall back to the unminimised plan before giving up
-				if minPath != v.plan {
+			confirmed := false
+			var lastTrouble string
+			for ci, v := range list {
+				minPath := filepath.Join(pwork, fmt.Sprintf("min-%d-%d.json", i, ci))
+				e := []string{"VERIF_MODE=shrink", "VERIF_TIER=" + tier, "VERIF_PLAN=" + v.plan, "VERIF_KEY=" + k, "VERIF_RESULT=" + minPath, "VERIF_OUT=" + pwork, "VERIF_SHRINK_MS=90000"}
+				e = append(e, ph.Env...)
+				if ph.Race {
+					e = append(e, "VERIF_SHRINK_RUNS=150", "GORACE=halt_on_error=0 log_path="+filepath.Join(pwork, "race-shrink"))
+				}
+				out, err := runBin(bin, e, 15*time.Minute)
+				if err != nil && !fileExists(minPath) {
+					fmt.Printf("shrink failed (%v); reporting the unminimised plan\n%s\n", err, tail(out, 10))
 					minPath = v.plan
-					for j := 0; j < 2; j++ {
-						rk[j], rh[j], _ = replayWant(bin, ph.Race, minPath, pwork, j, k)
-					}
+				} else {
+					fmt.Print(tail(out, 3))
+				}
+				// replay twice in fresh processes: same key, same event-log hash
+				var rk [2]string
+				var rh [2]string
+				for j := 0; j < 2; j++ {
+					rk[j], rh[j], _ = replayWant(bin, ph.Race, minPath, pwork, j, k)
 				}
 				if rk[0] != k || rk[1] != k || rh[0] != rh[1] {
-					harness = fmt.Sprintf("violation %s (seed %d) does not replay: keys %q %q hashes %s %s", k, v.seed, rk[0], rk[1], rh[0], rh[1])
-					continue
+					// fall back to the unminimised plan before giving up
+					if minPath != v.plan {
+						minPath = v.plan
+						for j := 0; j < 2; j++ {
+							rk[j], rh[j], _ = replayWant(bin, ph.Race, minPath, pwork, j, k)
+						}
+					}
 				}
+				rkey, detail := k, v.detail
+				if rk[0] != k || rk[1] != k || rh[0] != rh[1] {
+					// Two fresh replays that agree with each other on a violation of
+					// ANOTHER class are an exactly replaying violation of that class.
+					_, isOpen := open[rk[0]]
+					if rk[0] != "" && rk[0] == rk[1] && rh[0] == rh[1] && !strings.HasPrefix(rk[0], "harness/") && !isOpen {
+						fmt.Printf("note: found as %s in the search worker; replays in fresh processes as %s\n", k, rk[0])
+						rkey = rk[0]
+						if b, err := os.ReadFile(minPath); err == nil {
+							var m map[string]interface{}
+							dec := json.NewDecoder(bytes.NewReader(b))
+							dec.UseNumber() // 64-bit seeds must survive the round trip
+							if dec.Decode(&m) == nil {
+								_, _, det := replayWant(bin, ph.Race, minPath, pwork, 2, rkey)
+								m["violation_key"], m["event_log_hash"], m["violation_detail"] = rkey, rh[0], det
+								detail = det
+								if nb, err := json.MarshalIndent(m, "", " "); err == nil {
+									minPath = filepath.Join(pwork, fmt.Sprintf("min-%d-%d-rekeyed.json", i, ci))
+									os.WriteFile(minPath, nb, 0o644)
+								}
+							}
+						}
+					} else {
+						lastTrouble = fmt.Sprintf("violation %s (seed %d) does not replay: keys %q %q hashes %s %s", k, v.seed, rk[0], rk[1], rh[0], rh[1])
+						fmt.Printf("note: %s\n", lastTrouble)
+						continue
+					}
+				}
+				dst := filepath.Join(replayDir, fmt.Sprintf("%s-%d-%s-%s.json", ph.Name, v.seed, rh[0], safeName(rkey)))
+				b, _ := os.ReadFile(minPath)
+				os.WriteFile(dst, b, 0o644)
+				violations++
+				fmt.Printf("violation key=%s seed=%d\n%s\n", rkey, v.seed, indent(clip(detail, 1500)))
+				fmt.Printf("VIOLATION property=%s replay=%s\n", id, dst)
+				confirmed = true
+				break
 			}
-			dst := filepath.Join(replayDir, fmt.Sprintf("%s-%d-%s-%s.json", ph.Name, v.seed, rh[0], safeName(k)))
-			b, _ := os.ReadFile(minPath)
-			os.WriteFile(dst, b, 0o644)
-			violations++
-			fmt.Printf("violation key=%s seed=%d\n%s\n", k, v.seed, indent(clip(v.detail, 1500)))
-			fmt.Printf("VIOLATION property=%s replay=%s\n", id, dst)
+			if !confirmed && lastTrouble != "" {
+				harness = lastTrouble
+			}
 		}
 	}
 
